@@ -569,7 +569,9 @@ def origin(body, place, depth=0):
     if len(ds) == 1 and ds[0][0] == "assign":
         r = ds[0][2]
         src = None
-        if r["k"] in ("use", "cast"):
+        named = body.local_name(root) is not None
+        if r["k"] in ("use", "cast") and not named:
+            # a *named* local initialised by copy (`let start = pos;`) is a snapshot, not an alias
             src = op_place(r["o"])
         elif r["k"] == "ref":
             src = r["p"]
